@@ -557,11 +557,11 @@ def execute(plan):
                 if it['kind'] != 'new' or it.get('uses_ncep') or it.get('local_tables'):
                     continue
                 root = make_tables_root(os.path.join(tmp, 'r%d' % i), it['version'], it['extra_b'], it['extra_d'])
-                tr['file'][str(i)] = core.run_in_child(_file_decode, {'root': root, 'hex': it['hex']}, 60)
+                tr['file'][str(i)] = core.run_in_child(_file_decode, {'root': root, 'hex': it['hex']}, 300)
         arg = {'stream': lay['stream'].hex(), 'coe': kn['coe'], 'compiled': kn.get('compiled'),
                'filter': kn.get('filter')}
         if plan['family'] == 'c08-def':
-            tr['ref'] = core.run_in_child(_scan, dict(arg, compiled=None), 120)
+            tr['ref'] = core.run_in_child(_scan, dict(arg, compiled=None), 300)
         tr.update(_scan(arg))
     finally:
         if tmp:
